@@ -532,11 +532,36 @@ theorem know_none_untouched {ab : Abs} {p : SPath} {g : Fact} (h : ab.know p g =
   | some n => rw [hl] at h; simp at h
   | none => rfl
 
+theorem node_isDir (n : Node) : decide (n = Node.dir) = Fact.dir.holdsK n.kind := by
+  cases n <;> simp [Node.kind, Fact.holdsK]
+
+theorem node_isFile (n : Node) : (match n with | Node.file _ => true | _ => false) = Fact.file.holdsK n.kind := by
+  cases n <;> simp [Node.kind, Fact.holdsK]
+
+theorem node_present (n : Node) : decide (n ≠ Node.absent) = Fact.present.holdsK n.kind := by
+  cases n <;> simp [Node.kind, Fact.holdsK]
+
+theorem node_absent (n : Node) : decide (n = Node.absent) = Fact.absent.holdsK n.kind := by
+  cases n <;> simp [Node.kind, Fact.holdsK]
+
 theorem answer_fact (o : Oracle) (fs : FS) (q : Query) (p : SPath) (f : Fact) (h : queryFact q = some (p, f)) :
     answer o fs q = f.holdsK (fs p).kind := by
-  cases q <;> simp [queryFact] at h
-  all_goals (obtain ⟨rfl, rfl⟩ := h)
-  all_goals (simp only [answer, Fact.holdsK]; cases fs p <;> simp [Node.kind])
+  cases q with
+  | isDir p' =>
+    simp only [queryFact, Option.some.injEq, Prod.mk.injEq] at h
+    obtain ⟨rfl, rfl⟩ := h
+    exact node_isDir _
+  | isFile p' =>
+    simp only [queryFact, Option.some.injEq, Prod.mk.injEq] at h
+    obtain ⟨rfl, rfl⟩ := h
+    exact node_isFile _
+  | pathExists p' =>
+    simp only [queryFact, Option.some.injEq, Prod.mk.injEq] at h
+    obtain ⟨rfl, rfl⟩ := h
+    exact node_present _
+  | valEmpty v => simp [queryFact] at h
+  | strEq a b => simp [queryFact] at h
+  | globPrefix v pre => simp [queryFact] at h
 
 theorem answer_nofact (o : Oracle) (fs : FS) (q : Query) (h : queryFact q = none) : answer o fs q = o.q q := by
   cases q <;> simp [queryFact] at h <;> rfl
@@ -607,5 +632,591 @@ theorem assumeQ_rel {o inv fs₀ ab d} (hr : Rel o inv fs₀ ab d) (q : Query) (
     rcases hqb with rfl | hqb
     · rw [← answer_nofact o d.fs q hq]; exact hb
     · exact hr.qOk qb hqb
+
+/-! #### pre-conditions -/
+
+theorem preOk_fact (fs : FS) (pr : Pre) :
+    preOk fs pr = (match pr with
+      | .static ok => ok
+      | .absent p => Fact.absent.holdsK (fs p).kind
+      | .isFile p => Fact.file.holdsK (fs p).kind) := by
+  cases pr with
+  | static ok => rfl
+  | absent p => exact node_absent _
+  | isFile p => exact node_isFile _
+
+theorem pre3_sound {o inv fs₀ ab d} (hr : Rel o inv fs₀ ab d) (hwf : WF fs₀) (pr : Pre) (b : Bool)
+    (h : ab.pre3 pr = some b) : preOk d.fs pr = b := by
+  rw [preOk_fact]
+  cases pr with
+  | static ok => simpa [Abs.pre3] using h
+  | absent p => exact know_sound hr hwf p _ b h
+  | isFile p => exact know_sound hr hwf p _ b h
+
+theorem assumePre_rel {o inv fs₀ ab d} (hr : Rel o inv fs₀ ab d) (pr : Pre)
+    (hnone : ab.pre3 pr = none) (hb : preOk d.fs pr = true) : Rel o inv fs₀ (ab.assumePre pr) d := by
+  rw [preOk_fact] at hb
+  cases pr with
+  | static ok => exact hr
+  | absent p => exact assume_rel hr p _ (know_none_untouched hnone) hb
+  | isFile p => exact assume_rel hr p _ (know_none_untouched hnone) hb
+
+theorem absPres_sound {o inv fs₀} (hwf : WF fs₀) : ∀ (pre : List Pre) (ab : Abs) (d : Dyn), Rel o inv fs₀ ab d →
+    (match absPres ab pre with
+     | .fails => pre.all (preOk d.fs) = false
+     | .holds => pre.all (preOk d.fs) = true
+     | .unknown ab' => pre.all (preOk d.fs) = true → Rel o inv fs₀ ab' d) := by
+  intro pre
+  induction pre with
+  | nil => intro ab d _; simp [absPres]
+  | cons pr r ih =>
+    intro ab d hr
+    simp only [absPres]
+    cases h3 : ab.pre3 pr with
+    | some b =>
+      have hb := pre3_sound hr hwf pr b h3
+      cases b with
+      | false => simp [hb]
+      | true =>
+        simp only
+        have := ih ab d hr
+        cases hres : absPres ab r with
+        | fails => rw [hres] at this; simp [hb, this]
+        | holds => rw [hres] at this; simp [hb, this]
+        | unknown ab' =>
+          rw [hres] at this
+          simp only [List.all_cons, hb, Bool.true_and]
+          exact this
+    | none =>
+      simp only
+      cases hp : preOk d.fs pr with
+      | false =>
+        cases hres : absPres (ab.assumePre pr) r with
+        | fails => simp [hp]
+        | holds => simp [hp]
+        | unknown ab' => simp [hp]
+      | true =>
+        have hr' := assumePre_rel hr pr h3 hp
+        have := ih (ab.assumePre pr) d hr'
+        cases hres : absPres (ab.assumePre pr) r with
+        | fails => rw [hres] at this; simp [hp, this]
+        | holds => simp only; intro _; exact hr'
+        | unknown ab' =>
+          rw [hres] at this
+          simp only [List.all_cons, hp, Bool.true_and]
+          exact this
+
+/-! #### effects -/
+
+theorem content_sound {o inv fs₀ ab d} (hr : Rel o inv fs₀ ab d) (p : SPath) :
+    (ab.content p).eval fs₀ inv = d.fs.content p := by
+  unfold Abs.content FS.content
+  rw [hr.fsOk p]
+  unfold evalLookup
+  cases hl : symLookup ab.events p with
+  | none => simp only [SCont.eval, FS.content]
+  | some n => cases n <;> simp [SNode.eval, SCont.eval]
+
+theorem push_set_rel {o inv fs₀ ab d} (hr : Rel o inv fs₀ ab d) (p : SPath) (n : SNode) (fs' : FS)
+    (h : ∀ q, fs' q = if q = p then n.eval fs₀ inv else d.fs q) :
+    Rel o inv fs₀ (ab.push (.set p n)) { d with fs := fs' } := by
+  refine ⟨?_, hr.factsOk, hr.qOk, hr.logOk⟩
+  intro q
+  simp only [h q, Abs.push, evalLookup, symLookup]
+  by_cases hq : q = p
+  · simp [hq]
+  · simp only [hq, if_false]
+    exact hr.fsOk q
+
+theorem absEff_sound {o inv fs₀} (hwf : WF fs₀) (idx : Nat) (e : Effect) (ab : Abs) (d : Dyn)
+    (hr : Rel o inv fs₀ ab d) :
+    ∃ ab' ∈ absEff idx ab e, Rel o inv fs₀ ab' { d with fs := applyEff inv idx d.fs e } ∧ ab'.cmds = ab.cmds := by
+  cases e with
+  | mkdir p =>
+    exact ⟨_, by simp [absEff], push_set_rel hr p .dir _ (fun q => by simp [applyEff, FS.set_apply, SNode.eval]), rfl⟩
+  | write p c =>
+    exact ⟨ab.push (.set p (.file (.lit c))), by simp [absEff], push_set_rel hr p (.file (.lit c)) _ (fun q => by
+      simp [applyEff, FS.set_apply, SNode.eval, SCont.eval]), rfl⟩
+  | copy s t =>
+    exact ⟨ab.push (.set t (.file (ab.content s))), by simp [absEff], push_set_rel hr t (.file (ab.content s)) _ (fun q => by
+      simp [applyEff, FS.set_apply, SNode.eval, content_sound hr]), rfl⟩
+  | convert s t =>
+    exact ⟨ab.push (.set t (.file (.converted (ab.content s)))), by simp [absEff],
+      push_set_rel hr t (.file (.converted (ab.content s))) _ (fun q => by
+        simp [applyEff, FS.set_apply, SNode.eval, SCont.eval, content_sound hr]), rfl⟩
+  | job out inp =>
+    exact ⟨ab.push (.set out (.file (.jobOut idx (ab.content inp)))), by simp [absEff],
+      push_set_rel hr out (.file (.jobOut idx (ab.content inp))) _ (fun q => by
+        simp [applyEff, FS.set_apply, SNode.eval, SCont.eval, content_sound hr]), rfl⟩
+  | remove p =>
+    refine ⟨ab.push (.removeUnder p), by simp [absEff], ⟨?_, hr.factsOk, hr.qOk, hr.logOk⟩, rfl⟩
+    intro q
+    show (applyEff inv idx d.fs (.remove p)) q = evalLookup (SEvent.removeUnder p :: ab.events) fs₀ inv q
+    simp only [applyEff, evalLookup, symLookup]
+    by_cases hq : q.isUnder p = true
+    · simp [hq, SNode.eval]
+    · simp only [hq]
+      exact hr.fsOk q
+  | copyInto s t n =>
+    simp only [absEff]
+    cases hk : ab.know t .dir with
+    | some b =>
+      have hb := know_sound hr hwf t .dir b hk
+      rw [← node_isDir] at hb
+      cases b with
+      | true =>
+        simp only [decide_eq_true_eq] at hb
+        exact ⟨ab.push (.set (t.child n) (.file (ab.content s))), by simp,
+          push_set_rel hr (t.child n) (.file (ab.content s)) _ (fun q => by
+            simp [applyEff, hb, FS.set_apply, SNode.eval, content_sound hr]), rfl⟩
+      | false =>
+        simp only [decide_eq_false_iff_not] at hb
+        exact ⟨ab.push (.set t (.file (ab.content s))), by simp,
+          push_set_rel hr t (.file (ab.content s)) _ (fun q => by
+            simp [applyEff, hb, FS.set_apply, SNode.eval, content_sound hr]), rfl⟩
+    | none =>
+      have hun := know_none_untouched hk
+      by_cases hd : d.fs t = .dir
+      · have hr' : Rel o inv fs₀ (ab.assume t .dir) d :=
+          assume_rel hr t .dir hun (by rw [← node_isDir]; simp [hd])
+        refine ⟨(ab.assume t .dir).push (.set (t.child n) (.file (ab.content s))), by simp, ?_, rfl⟩
+        have := push_set_rel hr' (t.child n) (.file (ab.content s)) (applyEff inv idx d.fs (.copyInto s t n)) (fun q => by
+          simp [applyEff, hd, FS.set_apply, SNode.eval, content_sound hr])
+        exact this
+      · have hr' : Rel o inv fs₀ (ab.assume t .notDir) d :=
+          assume_rel hr t .notDir hun (by
+            have := node_isDir (d.fs t)
+            simp only [hd, decide_false] at this
+            simp [Fact.holdsK] at this ⊢
+            exact this)
+        refine ⟨(ab.assume t .notDir).push (.set t (.file (ab.content s))), by simp, ?_, rfl⟩
+        have := push_set_rel hr' t (.file (ab.content s)) (applyEff inv idx d.fs (.copyInto s t n)) (fun q => by
+          simp [applyEff, hd, FS.set_apply, SNode.eval, content_sound hr])
+        exact this
+
+theorem absEffs_sound {o inv fs₀} (hwf : WF fs₀) (idx : Nat) : ∀ (effs : List Effect) (abs : List Abs) (ab : Abs) (d : Dyn),
+    ab ∈ abs → Rel o inv fs₀ ab d →
+    ∃ ab' ∈ absEffs idx abs effs, Rel o inv fs₀ ab' { d with fs := applyEffs inv idx d.fs effs } ∧ ab'.cmds = ab.cmds := by
+  intro effs
+  induction effs with
+  | nil => intro abs ab d hm hr; exact ⟨ab, by simpa [absEffs] using hm, by simpa [applyEffs] using hr, rfl⟩
+  | cons e r ih =>
+    intro abs ab d hm hr
+    obtain ⟨ab1, hm1, hr1, hc1⟩ := absEff_sound hwf idx e ab d hr
+    have hmem : ab1 ∈ abs.flatMap (fun ab => absEff idx ab e) := by
+      simp only [List.mem_flatMap]
+      exact ⟨ab, hm, hm1⟩
+    obtain ⟨ab2, hm2, hr2, hc2⟩ := ih _ ab1 _ hmem hr1
+    exact ⟨ab2, by simpa [absEffs] using hm2, by simpa [applyEffs] using hr2, hc2.trans hc1⟩
+
+/-! #### the main soundness theorem -/
+
+theorem cmdStatus_pre_false {o : Oracle} {fs : FS} {idx : Nat} {c : Cmd} {pre : List Pre}
+    (h : pre.all (preOk fs) = false) : cmdStatus o fs idx c pre ≠ 0 := by
+  unfold cmdStatus
+  simp only [h, Bool.false_eq_true, if_false]
+  split <;> omega
+
+theorem cmdStatus_pre_true {o : Oracle} {fs : FS} {idx : Nat} {c : Cmd} {pre : List Pre}
+    (h : pre.all (preOk fs) = true) : cmdStatus o fs idx c pre = o.status idx c := by
+  unfold cmdStatus
+  simp [h]
+
+theorem logCmd_rel {o inv fs₀ ab d} (hr : Rel o inv fs₀ ab d) (c : Cmd) (s : Nat) (fs' : FS)
+    (hfs : ∀ p, fs' p = d.fs p) :
+    Rel o inv fs₀ (ab.logCmd c (decide (s = 0))) { fs := fs', log := d.log ++ [(c, s)] } := by
+  refine ⟨fun p => (hfs p).trans (hr.fsOk p), hr.factsOk, hr.qOk, ?_⟩
+  simp only [Abs.logCmd, List.map_append, List.map_cons, List.map_nil, List.reverse_cons, hr.logOk]
+
+theorem rel_log_length {o inv fs₀ ab d} (hr : Rel o inv fs₀ ab d) : d.log.length = ab.cmds.length := by
+  have := congrArg List.length hr.logOk
+  simpa using this
+
+theorem absCheck_sound {α : Type} (o : Oracle) (inv : Nat) (fs₀ : FS) (hwf : WF fs₀) (allOk : Bool)
+    (hall : allOk = true → ∀ i c, o.status i c = 0) (P : Abs → α → Bool) :
+    ∀ (t : Tree α) (ab : Abs) (d : Dyn), Rel o inv fs₀ ab d → absCheck allOk P t ab = true →
+      ∃ ab', Rel o inv fs₀ ab' (interp o inv t d).2 ∧ P ab' (interp o inv t d).1 = true := by
+  intro t
+  induction t with
+  | ret a =>
+    intro ab d hr hc
+    exact ⟨ab, by simpa [interp] using hr, by simpa [absCheck, interp] using hc⟩
+  | cmd c pre effs ok fail ihok ihfail =>
+    intro ab d hr hc
+    have hlen := rel_log_length hr
+    simp only [interp]
+    have hps := absPres_sound (o := o) (inv := inv) hwf pre ab d hr
+    simp only [absCheck] at hc
+    -- the failing branch, from `ab`
+    have failCase : ∀ s, s ≠ 0 → absCheck allOk P (fail ()) (ab.logCmd c false) = true →
+        ∃ ab', Rel o inv fs₀ ab' (interp o inv (fail ()) { d with log := d.log ++ [(c, s)] }).2 ∧
+          P ab' (interp o inv (fail ()) { d with log := d.log ++ [(c, s)] }).1 = true := by
+      intro s hs hcf
+      have hr' := logCmd_rel hr c s d.fs (fun _ => rfl)
+      simp only [hs, decide_false] at hr'
+      exact ihfail () _ _ hr' hcf
+    -- the succeeding branch, from a state `ab1` that describes `d`
+    have okCase : ∀ ab1, Rel o inv fs₀ ab1 d → ab1.cmds = ab.cmds →
+        (absEffs ab.cmds.length [ab1] effs).all (fun ab' => absCheck allOk P (ok ()) (ab'.logCmd c true)) = true →
+        ∃ ab', Rel o inv fs₀ ab' (interp o inv (ok ()) { fs := applyEffs inv d.log.length d.fs effs, log := d.log ++ [(c, 0)] }).2 ∧
+          P ab' (interp o inv (ok ()) { fs := applyEffs inv d.log.length d.fs effs, log := d.log ++ [(c, 0)] }).1 = true := by
+      intro ab1 hr1 hc1 hall1
+      obtain ⟨ab2, hm2, hr2, hc2⟩ := absEffs_sound hwf ab.cmds.length effs [ab1] ab1 d (by simp) hr1
+      rw [List.all_eq_true] at hall1
+      have hck := hall1 ab2 hm2
+      have hr3 := logCmd_rel hr2 c 0 (applyEffs inv d.log.length d.fs effs) (fun p => by rw [hlen])
+      simp only [decide_true] at hr3
+      exact ihok () _ _ hr3 hck
+    by_cases hs : cmdStatus o d.fs d.log.length c pre = 0
+    · simp only [hs, if_true]
+      cases hres : absPres ab pre with
+      | fails =>
+        rw [hres] at hps
+        exact absurd hs (cmdStatus_pre_false hps)
+      | holds =>
+        rw [hres] at hc
+        simp only [Bool.and_eq_true] at hc
+        exact okCase ab hr rfl hc.1
+      | unknown ab1 =>
+        rw [hres] at hc hps
+        simp only [Bool.and_eq_true] at hc
+        have hall' : pre.all (preOk d.fs) = true := by
+          cases hp : pre.all (preOk d.fs) with
+          | true => rfl
+          | false => exact absurd hs (cmdStatus_pre_false hp)
+        have hr1 := hps hall'
+        have hcm : ab1.cmds = ab.cmds := by
+          -- assuming facts never touches the log
+          have : ∀ (pre : List Pre) (ab ab1 : Abs), absPres ab pre = .unknown ab1 → ab1.cmds = ab.cmds := by
+            intro pre
+            induction pre with
+            | nil => intro ab ab1 h; simp [absPres] at h
+            | cons pr r ih =>
+              intro ab ab1 h
+              simp only [absPres] at h
+              have hass : (ab.assumePre pr).cmds = ab.cmds := by cases pr <;> rfl
+              cases h3 : ab.pre3 pr with
+              | some b =>
+                rw [h3] at h
+                cases b with
+                | false => simp at h
+                | true => exact ih ab ab1 h
+              | none =>
+                rw [h3] at h
+                simp only at h
+                cases hres : absPres (ab.assumePre pr) r with
+                | fails => rw [hres] at h; simp at h
+                | holds => rw [hres] at h; simp only [PreRes.unknown.injEq] at h; rw [← h]; exact hass
+                | unknown ab' => rw [hres] at h; simp only [PreRes.unknown.injEq] at h; subst h; exact (ih _ _ hres).trans hass
+          exact this pre ab ab1 hres
+        exact okCase ab1 hr1 hcm hc.1
+    · simp only [hs, if_false]
+      cases hres : absPres ab pre with
+      | fails =>
+        rw [hres] at hc
+        exact failCase _ hs hc
+      | holds =>
+        rw [hres] at hc hps
+        simp only [Bool.and_eq_true, Bool.or_eq_true] at hc
+        rcases hc.2 with hA | hF
+        · exfalso
+          rw [cmdStatus_pre_true hps] at hs
+          exact hs (hall hA _ _)
+        · exact failCase _ hs hF
+      | unknown ab1 =>
+        rw [hres] at hc
+        simp only [Bool.and_eq_true] at hc
+        exact failCase _ hs hc.2
+  | ask q y n ihy ihn =>
+    intro ab d hr hc
+    simp only [interp]
+    simp only [absCheck] at hc
+    cases ha : ab.answer q with
+    | some b =>
+      rw [ha] at hc
+      have hb := answer_sound hr hwf q b ha
+      cases b with
+      | true => simp only [hb, if_true]; exact ihy () ab d hr hc
+      | false => simp only [hb, Bool.false_eq_true, if_false]; exact ihn () ab d hr hc
+    | none =>
+      rw [ha] at hc
+      simp only [Bool.and_eq_true] at hc
+      cases hb : answer o d.fs q with
+      | true => simp only [if_true]; exact ihy () _ d (assumeQ_rel hr q true ha hb) hc.1
+      | false => simp only [Bool.false_eq_true, if_false]; exact ihn () _ d (assumeQ_rel hr q false ha hb) hc.2
+  | eff e next ih =>
+    intro ab d hr hc
+    simp only [interp]
+    simp only [absCheck] at hc
+    obtain ⟨ab1, hm1, hr1, _⟩ := absEff_sound hwf ab.cmds.length e ab d hr
+    rw [List.all_eq_true] at hc
+    have hlen := rel_log_length hr
+    rw [hlen]
+    exact ih () ab1 _ hr1 (hc ab1 hm1)
+
+/-! ## Part D: the property at the leaves -/
+
+def leafView (ab : Abs) : View := ab.cmds.reverse.map (fun e => (e.1.argv, e.2))
+
+/-- is the exit code at this leaf zero?  (`statusOf k` is known to be non-zero when step k failed) -/
+def leafOk (ab : Abs) : Code → Option Bool
+  | .lit n => some (n == 0)
+  | .statusOf k =>
+    match ab.cmds.reverse[k]? with
+    | some (_, false) => some false
+    | _ => none
+
+/-- the job read the requested input -/
+def symInputOk (f : Flags) (ab : Abs) : SCont → Bool
+  | .lit (.text v) =>
+    (match f.d with
+     | some k => v.norm = (Val.norm ([Atom.optarg k] ++ [Atom.lit "\n"])).norm
+     | none => false)
+  | .ofInit p =>
+    f.d = none &&
+      ((p = scriptList && initKnow ab.facts scriptList .present = some true) ||
+       (p = cwdList && initKnow ab.facts scriptList .present = some false))
+  | _ => false
+
+def symOutOk (b : Backend) (f : Flags) (ab : Abs) (j : Nat) : SCont → Bool
+  | .jobOut j' cin => b = .atlas && j' = j && symInputOk f ab cin
+  | .converted (.jobOut j' cin) => b = .cms && j' = j && symInputOk f ab cin
+  | _ => false
+
+def symDelivered (b : Backend) (f : Flags) (ab : Abs) (j : Nat) : Bool :=
+  let outp := outPath f
+  match ab.know outp .dir with
+  | some true =>
+    (match symLookup ab.events (outp.child "ANALYSIS.root") with
+     | some (.file c) => symOutOk b f ab j c
+     | _ => false)
+  | _ =>
+    (match symLookup ab.events outp with
+     | some (.file c) => symOutOk b f ab j c
+     | _ => false)
+
+def symUntouched (f : Flags) (ab : Abs) : Bool :=
+  (symLookup ab.events (outPath f)).isNone && (symLookup ab.events ((outPath f).child "ANALYSIS.root")).isNone
+
+/-- `SpecOK`, evaluated on the abstract state at a leaf -/
+def leafP (b : Backend) (i : Inv) (live : Bool) (ab : Abs) (code : Code) : Bool :=
+  let f := flagsOf i.evs {}
+  let v := leafView ab
+  if f.bad then code = .lit 10 && v.isEmpty
+  else if i.nrest ≠ 0 then code = .lit 1 && v.isEmpty
+  else
+    match leafOk ab code with
+    | none => false
+    | some ok =>
+      specFailstopV ok v && specPhasesV b f v && specBuildThenRunV b f ok v &&
+      (!(ok && !f.c) || (deliveryLogV b v && symDelivered b f ab (findIdxV (isJob b) v))) &&
+      (!(!ok || f.c) || symUntouched f ab) &&
+      (!live || ok)
+
+theorem view_eq {o inv fs₀ ab d} (hr : Rel o inv fs₀ ab d) :
+    (d.log.map (fun e => (e.1.argv, e.2))).map (fun e => (e.1, e.2 == 0)) = leafView ab := by
+  unfold leafView
+  rw [← hr.logOk]
+  simp only [List.map_map]
+  apply List.map_congr_left
+  intro e _
+  have : (e.snd == 0) = decide (e.snd = 0) := by cases hh : e.snd == 0 <;> simp_all
+  simp [Function.comp, this]
+
+theorem leafOk_sound {o inv fs₀ ab d} (hr : Rel o inv fs₀ ab d) (code : Code) (ok : Bool)
+    (h : leafOk ab code = some ok) : (code.eval d.log == 0) = ok := by
+  cases code with
+  | lit n => simpa [leafOk, Code.eval] using h
+  | statusOf k =>
+    simp only [leafOk] at h
+    cases hk : ab.cmds.reverse[k]? with
+    | none => rw [hk] at h; simp at h
+    | some e =>
+      obtain ⟨c, bb⟩ := e
+      rw [hk] at h
+      cases bb with
+      | true => simp at h
+      | false =>
+        simp only [Option.some.injEq] at h
+        subst h
+        have := hr.logOk
+        have h2 : (d.log.map (fun e => (e.1, decide (e.2 = 0))))[k]? = some (c, false) := by rw [this]; exact hk
+        simp only [List.getElem?_map] at h2
+        cases hd : d.log[k]? with
+        | none => rw [hd] at h2; simp at h2
+        | some e =>
+          rw [hd] at h2
+          simp only [Option.map_some, Option.some.injEq, Prod.mk.injEq, decide_eq_false_iff_not] at h2
+          simp only [Code.eval, statusAt, hd]
+          simpa using h2.2
+
+theorem Node.kind_D {n : Node} : n.kind = .D ↔ n = .dir := by
+  cases n <;> simp [Node.kind]
+
+theorem symInputOk_sound {o inv fs₀ ab d} (hr : Rel o inv fs₀ ab d) (hwf : WF fs₀) (f : Flags) (cin : SCont)
+    (h : symInputOk f ab cin = true) :
+    (cin.eval fs₀ inv).norm =
+      (match f.d with
+       | some k => Content.text (Val.norm ([Atom.optarg k] ++ [Atom.lit "\n"]))
+       | none => listInputOf fs₀).norm := by
+  cases cin with
+  | lit c =>
+    cases c with
+    | text v =>
+      simp only [symInputOk] at h
+      cases hd : f.d with
+      | none => rw [hd] at h; simp at h
+      | some k =>
+        rw [hd] at h
+        simp only [decide_eq_true_eq] at h
+        simp only [SCont.eval, Content.norm, h]
+    | missing => simp [symInputOk] at h
+    | heredoc n => simp [symInputOk] at h
+    | jobOut a b c => simp [symInputOk] at h
+    | converted c => simp [symInputOk] at h
+  | ofInit p =>
+    simp only [symInputOk, Bool.and_eq_true, Bool.or_eq_true, decide_eq_true_eq] at h
+    obtain ⟨hd, hp⟩ := h
+    rw [hd]
+    simp only [SCont.eval]
+    rcases hp with ⟨rfl, hk⟩ | ⟨rfl, hk⟩
+    · have := initKnow_sound hwf ab.facts hr.factsOk scriptList .present true hk
+      rw [← node_present] at this
+      simp only [decide_eq_true_eq] at this
+      simp [listInputOf, this]
+    · have := initKnow_sound hwf ab.facts hr.factsOk scriptList .present false hk
+      rw [← node_present] at this
+      simp only [decide_eq_false_iff_not, ne_eq, Decidable.not_not] at this
+      simp [listInputOf, this]
+  | jobOut j c => simp [symInputOk] at h
+  | converted c => simp [symInputOk] at h
+
+theorem symOutOk_sound {o inv fs₀ ab d} (hr : Rel o inv fs₀ ab d) (hwf : WF fs₀) (b : Backend) (f : Flags) (j : Nat)
+    (c : SCont) (h : symOutOk b f ab j c = true) :
+    (Node.file (c.eval fs₀ inv)).norm = .file (expectedOut b inv (fun k => [Atom.optarg k]) (listInputOf fs₀) f j) := by
+  cases c with
+  | jobOut j' cin =>
+    simp only [symOutOk, Bool.and_eq_true, decide_eq_true_eq] at h
+    obtain ⟨⟨rfl, rfl⟩, hin⟩ := h
+    have := symInputOk_sound hr hwf f cin hin
+    simp only [Node.norm, SCont.eval, Content.norm, expectedOut, wrapOut, this]
+    rfl
+  | converted c' =>
+    cases c' with
+    | jobOut j' cin =>
+      simp only [symOutOk, Bool.and_eq_true, decide_eq_true_eq] at h
+      obtain ⟨⟨rfl, rfl⟩, hin⟩ := h
+      have := symInputOk_sound hr hwf f cin hin
+      simp only [Node.norm, SCont.eval, Content.norm, expectedOut, wrapOut, this]
+      rfl
+    | lit c => simp [symOutOk] at h
+    | ofInit p => simp [symOutOk] at h
+    | converted c => simp [symOutOk] at h
+  | lit c => simp [symOutOk] at h
+  | ofInit p => simp [symOutOk] at h
+
+theorem symDelivered_sound {o inv fs₀ ab d} (hr : Rel o inv fs₀ ab d) (hwf : WF fs₀) (b : Backend) (f : Flags) (j : Nat)
+    (h : symDelivered b f ab j = true) :
+    (destNode (d.fs (outPath f)) (d.fs ((outPath f).child "ANALYSIS.root"))).norm =
+      .file (expectedOut b inv (fun k => [Atom.optarg k]) (listInputOf fs₀) f j) := by
+  unfold symDelivered at h
+  simp only at h
+  have inFile : ∀ p c, symLookup ab.events p = some (.file c) → d.fs p = .file (c.eval fs₀ inv) := by
+    intro p c hl
+    rw [hr.fsOk p]; simp [evalLookup, hl, SNode.eval]
+  have second : (match symLookup ab.events (outPath f) with
+       | some (.file c) => symOutOk b f ab j c
+       | _ => false) = true →
+      (destNode (d.fs (outPath f)) (d.fs ((outPath f).child "ANALYSIS.root"))).norm =
+        .file (expectedOut b inv (fun k => [Atom.optarg k]) (listInputOf fs₀) f j) := by
+    intro h2
+    cases hl : symLookup ab.events (outPath f) with
+    | none => rw [hl] at h2; simp at h2
+    | some n =>
+      cases n with
+      | absent => rw [hl] at h2; simp at h2
+      | dir => rw [hl] at h2; simp at h2
+      | file c =>
+        rw [hl] at h2
+        simp only at h2
+        rw [destNode, inFile _ c hl]
+        simp only [reduceCtorEq, if_false]
+        exact symOutOk_sound hr hwf b f j c h2
+  cases hk : ab.know (outPath f) .dir with
+  | none => rw [hk] at h; exact second h
+  | some bb =>
+    cases bb with
+    | false => rw [hk] at h; exact second h
+    | true =>
+      rw [hk] at h
+      simp only at h
+      have hdir := know_sound hr hwf _ _ _ hk
+      rw [← node_isDir] at hdir
+      simp only [decide_eq_true_eq] at hdir
+      cases hl : symLookup ab.events ((outPath f).child "ANALYSIS.root") with
+      | none => rw [hl] at h; simp at h
+      | some n =>
+        cases n with
+        | absent => rw [hl] at h; simp at h
+        | dir => rw [hl] at h; simp at h
+        | file c =>
+          rw [hl] at h
+          simp only at h
+          rw [destNode, hdir, inFile _ c hl]
+          simp only [if_true]
+          exact symOutOk_sound hr hwf b f j c h
+
+theorem symUntouched_sound {o inv fs₀ ab d} (hr : Rel o inv fs₀ ab d) (f : Flags) (h : symUntouched f ab = true) :
+    d.fs (outPath f) = fs₀ (outPath f) ∧
+      d.fs ((outPath f).child "ANALYSIS.root") = fs₀ ((outPath f).child "ANALYSIS.root") := by
+  simp only [symUntouched, Bool.and_eq_true, Option.isNone_iff_eq_none] at h
+  constructor
+  · rw [hr.fsOk]; simp [evalLookup, h.1]
+  · rw [hr.fsOk]; simp [evalLookup, h.2]
+
+/-- **bridge**: the leaf predicate on a state that describes the real one gives the Spec of the real outcome -/
+theorem leafP_sound {o inv fs₀ ab d} (hr : Rel o inv fs₀ ab d) (hwf : WF fs₀) (b : Backend) (i : Inv) (live : Bool)
+    (code : Code) (h : leafP b i live ab code = true) :
+    SpecOK (mkObs b i inv live (code.eval d.log) d.log fs₀ d.fs) = true := by
+  unfold leafP at h
+  simp only [SpecOK, mkObs, Obs.view, view_eq hr]
+  by_cases hbad : (flagsOf i.evs {}).bad = true
+  · simp only [hbad, if_true, Bool.and_eq_true, decide_eq_true_eq] at h ⊢
+    obtain ⟨hc, hl⟩ := h
+    subst hc
+    simp [Code.eval, hl]
+  · simp only [hbad, Bool.false_eq_true, if_false] at h ⊢
+    by_cases hn : i.nrest ≠ 0
+    · rw [if_pos hn] at h
+      rw [if_pos hn]
+      simp only [Bool.and_eq_true, decide_eq_true_eq] at h ⊢
+      obtain ⟨hc, hl⟩ := h
+      subst hc
+      simp [Code.eval, hl]
+    · rw [if_neg hn] at h
+      rw [if_neg hn]
+      cases hok : leafOk ab code with
+      | none => rw [hok] at h; simp at h
+      | some ok =>
+        rw [hok] at h
+        have hcode := leafOk_sound hr code ok hok
+        simp only [Bool.and_eq_true] at h
+        obtain ⟨⟨⟨⟨⟨h1, h2⟩, h3⟩, h4⟩, h5⟩, h6⟩ := h
+        unfold SpecCore
+        simp only [hcode, Bool.and_eq_true]
+        refine ⟨⟨⟨⟨⟨h1, h2⟩, h3⟩, ?_⟩, ?_⟩, h6⟩
+        · simp only [Bool.or_eq_true, Bool.and_eq_true] at h4 ⊢
+          rcases h4 with h4 | ⟨h4a, h4b⟩
+          · left; exact h4
+          · right
+            refine ⟨h4a, ?_⟩
+            simp only [decide_eq_true_eq]
+            exact symDelivered_sound hr hwf b _ _ h4b
+        · simp only [Bool.or_eq_true, Bool.and_eq_true] at h5 ⊢
+          rcases h5 with h5 | h5
+          · left; exact h5
+          · right
+            have := symUntouched_sound hr _ h5
+            simp [this.1, this.2]
 
 end FaxVerif.C16
